@@ -1,6 +1,6 @@
 (* C12 property theorems. Nothing but statements closed by `exact lemma` and Print Assumptions. *)
 From Coq Require Import ZArith NArith List Bool.
-From OG Require Import C12.Model C12.Proofs C12.ProofsParse C12.ProofsSet C12.ProofsLex C12.ProofsLexMain C12.Gen_Tokens C12.Inst.
+From OG Require Import C12.Model C12.Proofs C12.ProofsParse C12.ProofsSet C12.ProofsLex C12.ProofsLexMain C12.Chunk C12.ChunkProofs C12.Gen_Tokens C12.Inst.
 Import ListNotations.
 Open Scope N_scope.
 
@@ -112,4 +112,42 @@ Proof. vm_compute. reflexivity. Qed.
 Example C12_int_limits :
   Inst.parse (print_toks_v true true (EBin OSub (EInt (-9223372036854775808)) (EInt 9223372036854775807)))
   = Some (EBin OSub (EInt (-9223372036854775808)) (EInt 9223372036854775807)).
+Proof. vm_compute. reflexivity. Qed.
+
+(* RESULT CHUNKS: the generated codec (ChunkImpl / ColumnImpl / Bitmap / ChunkTags / floatTuple Marshal, Unmarshal, Size
+   over lib/codec) modelled at byte level.  For every chunk whose parts fit the wire format (counts below 2^32, name below
+   2^16 bytes, values 64-bit patterns): Unmarshal (Marshal c) = c, also when other bytes follow; and Size() is exactly
+   the marshalled length (the writer puts Size() in front of each sub-message, the reader cuts by it). *)
+Theorem C12_chunk_roundtrip : forall k rest, wf_chunk k = true -> dec_chunk (enc_chunk k ++ rest) = Some (k, rest).
+Proof. exact chunk_roundtrip. Qed.
+Print Assumptions C12_chunk_roundtrip.
+
+Theorem C12_chunk_size : forall k, wf_chunk k = true -> len (enc_chunk k) = size_chunk k.
+Proof. exact chunk_size. Qed.
+Print Assumptions C12_chunk_size.
+
+Theorem C12_column_roundtrip : forall c rest, wf_column c = true -> dec_column (enc_column c ++ rest) = Some (c, rest).
+Proof. exact column_roundtrip. Qed.
+Print Assumptions C12_column_roundtrip.
+
+(* scalar ints travel zig-zag coded: the coding is a bijection on 64-bit patterns (MinInt64 and -1 included) *)
+Theorem C12_zigzag : forall u, u < two64 -> zigzag u < two64 /\ unzigzag (zigzag u) = u.
+Proof. exact (fun u H => conj (zigzag_bound u H) (zigzag_inv u H)). Qed.
+Print Assumptions C12_zigzag.
+
+(* non-vacuity: a chunk with a nil column slot, a string column with offsets, a float column holding NaN / -0.0 / +Inf
+   patterns with a nil bitmap, float tuples, MinInt64 times, tags and a dimension column *)
+Definition ex_chunk : chunk :=
+  {| k_name := [109;115;116]; k_tags := [[1;0;2;0;104;0;97;0]; []]; k_tagindex := [0; 1]; k_time := [9223372036854775808; 18446744073709551615; 0];
+     k_intervalindex := [0];
+     k_columns := [None;
+        Some {| c_type := 1; c_floats := [9221120237041090561; 9223372036854775808; 9218868437227405312]; c_ints := []; c_strbytes := [];
+                c_offset := []; c_bools := []; c_times := [5]; c_tuples := []; c_nils := Some {| bm_bits := [224]; bm_array := []; bm_length := 3; bm_nil := 0 |} |};
+        Some {| c_type := 5; c_floats := []; c_ints := []; c_strbytes := [97;98;99]; c_offset := [0;0;3]; c_bools := []; c_times := [];
+                c_tuples := [[1;2];[]]; c_nils := Some {| bm_bits := [160]; bm_array := [0;2]; bm_length := 3; bm_nil := 1 |} |}];
+     k_dims := [Some {| c_type := 3; c_floats := []; c_ints := [9223372036854775808;1;18446744073709551615]; c_strbytes := []; c_offset := [];
+                        c_bools := [true;false]; c_times := []; c_tuples := []; c_nils := None |}] |}.
+Example C12_ex_chunk_wf : wf_chunk ex_chunk = true.
+Proof. vm_compute. reflexivity. Qed.
+Example C12_ex_chunk_roundtrip : dec_chunk (enc_chunk ex_chunk) = Some (ex_chunk, []).
 Proof. vm_compute. reflexivity. Qed.
